@@ -207,8 +207,8 @@ def check_register_dump(rep, prog):
     if okr:
         line = reg_line[0].data[1]
         parts = flat_parts(line)
-        name_ok = any(x == Op("unpack", rd, Const(0)) for x in walk(line))
-        addr_ok = any(x == Op("unpack", rd, Const(1)) for x in walk(line))
+        name_ok = any(x == Op("getitem", rd, Const(0)) for x in walk(line))
+        addr_ok = any(x == Op("getitem", rd, Const(1)) for x in walk(line))
         # the data: every hex digit of the register's data bytes, in order (chunks of 4 joined by blanks, upper-cased)
         chunks = [x for x in walk(line) if isinstance(x, Op) and x.op == "m:join"]
         data_ok = False
